@@ -17,11 +17,19 @@ Theorem C14_empty_continues : forall head vals s,
 Proof. intros head vals s S T. apply empty_return_continues. apply empty_writes_nothing; assumption. Qed.
 
 (* a return handler registered in the injector replaces the table: the one mapped in the request
-   scope, else the one mapped in the application scope, else the default table; nothing is called when
-   nothing was returned *)
+   scope, else the one mapped in the application scope, else the default table - which writes through
+   the http.ResponseWriter found in the injector, so a writer re-mapped by a middleware receives the
+   response (each of its Writes shows the wrapper's marker first); nothing is called when nothing was
+   returned *)
 Theorem C14_override : forall apprh s acts v r,
   rendering apprh s (HNormal acts (v :: r)) =
-  match rh s with Some k => custom_rh k | None => match apprh with Some k => custom_rh k | None => render (v :: r) end end.
+  match rh s with
+  | Some k => custom_rh k
+  | None => match apprh with
+            | Some k => custom_rh k
+            | None => if wrapped s then mark_ops (render (v :: r)) else render (v :: r)
+            end
+  end.
 Proof. exact rendering_nearest. Qed.
 
 Theorem C14_nothing_returned : forall apprh s acts, rendering apprh s (HNormal acts []) = [].
